@@ -822,6 +822,30 @@ static void c17_history (VhRng *r)
   while (nk) orc_program_free (keep[--nk]);
 }
 
+/* what "ran before" leaves behind: every vector register (and, for mmx code, every MMX register) filled with a pattern; all of
+ * them are caller-saved, so code that is correct cannot depend on their contents at entry */
+static void __attribute__ ((noinline)) dirty_vregs (uint32_t pat, int mmx)
+{
+  static int has_avx = -1;
+  if (has_avx < 0) has_avx = __builtin_cpu_supports ("avx") ? 1 : 0;
+#define DV(N) "movd %0, %%xmm" #N "\n\tpshufd $0, %%xmm" #N ", %%xmm" #N "\n\t"
+  __asm__ volatile (DV (0) DV (1) DV (2) DV (3) DV (4) DV (5) DV (6) DV (7) DV (8) DV (9) DV (10) DV (11) DV (12) DV (13) DV (14) DV (15)
+      : : "r" (pat) : "xmm0", "xmm1", "xmm2", "xmm3", "xmm4", "xmm5", "xmm6", "xmm7", "xmm8", "xmm9", "xmm10", "xmm11", "xmm12", "xmm13", "xmm14", "xmm15");
+#undef DV
+  if (has_avx) {
+#define DY(N) "vinsertf128 $1, %%xmm" #N ", %%ymm" #N ", %%ymm" #N "\n\t"
+    __asm__ volatile (DY (0) DY (1) DY (2) DY (3) DY (4) DY (5) DY (6) DY (7) DY (8) DY (9) DY (10) DY (11) DY (12) DY (13) DY (14) DY (15)
+        : : : "xmm0", "xmm1", "xmm2", "xmm3", "xmm4", "xmm5", "xmm6", "xmm7", "xmm8", "xmm9", "xmm10", "xmm11", "xmm12", "xmm13", "xmm14", "xmm15");
+#undef DY
+  }
+  if (mmx) {
+#define DM(N) "movd %0, %%mm" #N "\n\tpunpckldq %%mm" #N ", %%mm" #N "\n\t"
+    __asm__ volatile (DM (0) DM (1) DM (2) DM (3) DM (4) DM (5) DM (6) DM (7) : : "r" (pat) : "mm0", "mm1", "mm2", "mm3", "mm4", "mm5", "mm6", "mm7");
+#undef DM
+  }
+}
+static uint32_t tiny_dirty; static int tiny_dirty_on, tiny_dirty_mmx;
+
 /* native run of a compiled program on fixed inputs through a given (possibly already used) executor; returns a checksum of the destinations */
 static uint64_t tiny_native (OrcProgram *p, OrcExecutor *ex, int n, int off)
 {
@@ -840,7 +864,9 @@ static uint64_t tiny_native (OrcProgram *p, OrcExecutor *ex, int n, int off)
       if (v->size == 8) orc_executor_set_param_int64 (ex, i, 3); else orc_executor_set_param (ex, i, 3);
     }
   }
+  if (tiny_dirty_on) dirty_vregs (tiny_dirty, tiny_dirty_mmx);
   orc_executor_run (ex);
+  if (tiny_dirty_on && tiny_dirty_mmx) __asm__ volatile ("emms");
   for (i = 0; i < ORC_N_VARIABLES; i++) if (p->vars[i].size && p->vars[i].vartype == ORC_VAR_TYPE_DEST)
     for (j = 0; j < 8192; j++) h = (h ^ bufs[i][j]) * 1099511628211ULL;
   for (i = 0; i < 4; i++) h = (h ^ (uint32_t) ex->accumulators[i]) * 1099511628211ULL;
@@ -878,15 +904,18 @@ static void c17_one (ProgSpec *ps, long caseidx, VhRng *r)
       if (hinted || ps->n_mult || ps->n_min || ps->n_max || ps->const_n) goto no_repeat; }
     if (is_x86 (t) && ORC_COMPILE_RESULT_IS_SUCCESSFUL (res) && p2->orccode && !program_uses_special_or_big (ps)) {
       OrcExecutor *ex = orc_executor_new (p2); uint64_t h1, h2, h3; int nsmall = 1 + (int) (caseidx % 5);
-      h1 = tiny_native (p2, ex, nsmall, 1);
+      /* ... and whatever other code left in the (caller-saved) vector registers */
+      tiny_dirty_on = 1; tiny_dirty_mmx = !strcmp (t->name, "mmx");
+      tiny_dirty = 0x11111111u; h1 = tiny_native (p2, ex, nsmall, 1);
       (void) tiny_native (p2, ex, 100 + (int) (caseidx % 7), 0);
-      h2 = tiny_native (p2, ex, nsmall, 1);
-      h3 = tiny_native (p2, ex, nsmall, 1);
+      tiny_dirty = 0xdeadbeefu; h2 = tiny_native (p2, ex, nsmall, 1);
+      tiny_dirty = 0; h3 = tiny_native (p2, ex, nsmall, 1);
+      tiny_dirty_on = 0;
       orc_executor_free (ex);
       vh_count ("c17.repeat_runs", 1);
       if (h1 != h2 || h2 != h3) {
         char sg[120]; snprintf (sg, sizeof sg, "repeat-run|%s", t->name);
-        snprintf (what, sizeof what, "same code, same inputs (n=%d, arrays one element past alignment): result differs after the executor was used for a larger n (checksums %016llx %016llx %016llx)", nsmall, (unsigned long long) h1, (unsigned long long) h2, (unsigned long long) h3);
+        snprintf (what, sizeof what, "same code, same inputs (n=%d, arrays one element past alignment): result differs after the executor was used for a larger n or with other contents of the vector registers at entry (checksums %016llx %016llx %016llx)", nsmall, (unsigned long long) h1, (unsigned long long) h2, (unsigned long long) h3);
         spec_viol ("C17", "c17", sg, what, ps, caseidx, NULL);
       }
     }
@@ -924,6 +953,15 @@ static void mode_c17 (int hash_only)
     if (hash_only && c < N1 && (c % 4)) continue;
     vh_rng_init (&r, vh_args.seed, (uint64_t) c);
     if (c < N1) build_single (&ps, &single_forms[c], &r);
+    else if (((c - N1) & 15) == 3) {
+      /* all four accumulators in use */
+      static const char *accops[] = { "accw", "accl", "accsadubl" }; int k; char nm[32]; snprintf (nm, sizeof nm, "acc4_%ld", c); gen_init (&ps, nm);
+      for (k = 0; k < 4; k++) {
+        int oi = gen_op_index (accops[vh_randn (&r, 3)]), q; const RefOp *op = &ref_ops[oi]; PInsn *in = gen_add_insn (&ps, oi, 1);
+        in->dest[0] = gen_add_var (&ps, VK_ACC, op->dsz[0]);
+        for (q = 0; q < 4; q++) if (op->ssz[q]) in->src[q] = gen_add_var (&ps, VK_SRC, op->ssz[q]);
+      }
+    }
     else { char nm[32]; snprintf (nm, sizeof nm, "rand_%ld", c); gen_init (&ps, nm); ok = gen_random (&ps, &r, ALLP, 1 + (int) vh_randn (&r, 14)); }
     snprintf (desc, sizeof desc, "c17 %s", ps.name); vh_progress (c, desc);
     if (!ok || !gen_valid (&ps)) continue;
